@@ -249,7 +249,9 @@ def apalache_inductive(module, has_consts, workdir, timeout=900):
 
 
 # --------------------------------------------------------------------------- Miri tier
-MIRIFLAGS = '-Zmiri-disable-isolation -Zmiri-disable-stacked-borrows'
+# leaks are ignored under Miri: after a panicking call the harness deliberately forgets the cache, and the harness' own
+# live-allocation accounting (C04) is the leak detector; Stacked Borrows is off (DESIGN 4, C03)
+MIRIFLAGS = '-Zmiri-disable-isolation -Zmiri-disable-stacked-borrows -Zmiri-ignore-leaks'
 
 
 def select_states(tlc_out, n):
@@ -301,7 +303,7 @@ def miri_runs(shards, workdir, timeout):
             rc, err = q.returncode, q.stderr
         except subprocess.TimeoutExpired as e:
             rc, err = 124, (e.stderr or b'').decode(errors='replace') if isinstance(e.stderr, bytes) else (e.stderr or '')
-        ub = 'Undefined Behavior' in err or 'error: unsupported operation' in err or 'memory leaked' in err
+        ub = 'Undefined Behavior' in err
         stats = None
         for line in err.splitlines():
             if line.startswith('{'):
